@@ -466,7 +466,7 @@ fn main() {
     }
     let mut m = Monitor::new(
         n1,
-        "every serializable colour type (Rgb in two standards, Luma, Hsl, Hsv, Hwb, Xyz, Yxy, Lab, Lch, Luv, Lchuv, Hsluv, Oklab, Oklch, Okhsl, Okhsv, Okhwb, Lms-free list as available, CAM16-UCS Jab / Jmh (the full and partial CAM16 types are not serializable); f32, f64, and u8/u16 for Rgb) in opaque, Alpha and PreAlpha form, seeded components incl. -0.0, MIN, MAX, MIN_POSITIVE, subnormal-scale and arbitrary bit patterns, any hue: JSON text is an object whose key set is exactly the colour's own fields (+ `alpha` at the same level), every value a bare number equal to the component (hue included, no standard / white point metadata); from_str, from_str with the fields reversed, serde_json::Value, the as_array helper (JSON text equals the cast array; RON round trip), the type's own Deserialize from a JSON sequence, tuples / Vec, #[serde(flatten)] inside a user struct, RON text (struct, reversed fields, tuple) all give back the bit-identical colour; distinct = (type, float, shape, value class)",
+        "every serializable colour type (Rgb in two standards, Luma, Hsl, Hsv, Hwb, Xyz, Yxy, Lab, Lch, Luv, Lchuv, Hsluv, Oklab, Oklch, Okhsl, Okhsv, Okhwb, Lms with two cone matrices, CAM16-UCS Jab / Jmh (the full and partial CAM16 types are not serializable); f32, f64, and u8/u16 for Rgb) in opaque, Alpha and PreAlpha form, seeded components incl. -0.0, MIN, MAX, MIN_POSITIVE, subnormal-scale and arbitrary bit patterns, any hue: JSON text is an object whose key set is exactly the colour's own fields (+ `alpha` at the same level), every value a bare number equal to the component (hue included, no standard / white point metadata); from_str, from_str with the fields reversed, serde_json::Value, the as_array helper (JSON text equals the cast array; RON round trip), the type's own Deserialize from a JSON sequence, tuples / Vec, #[serde(flatten)] inside a user struct, RON text (struct, reversed fields, tuple) all give back the bit-identical colour; distinct = (type, float, shape, value class)",
     );
     let mut h = Monitor::new(
         n2,
@@ -481,6 +481,7 @@ fn main() {
     type RgbS<T> = palette::rgb::Rgb<encoding::Srgb, T>;
     type RgbL<T> = palette::rgb::Rgb<encoding::Linear<encoding::Rec2020>, T>;
     type RgbA<T> = palette::rgb::Rgb<encoding::AdobeRgb, T>;
+    type RgbP<T> = palette::rgb::Rgb<encoding::DciP3, T>;
     fam!("Srgb", RgbS<>, ["red", "green", "blue"], None);
     fam!("LinRec2020", RgbL<>, ["red", "green", "blue"], None);
     fam!("AdobeRgb", RgbA<>, ["red", "green", "blue"], None);
@@ -504,6 +505,14 @@ fn main() {
     fam!("Okhwb", Okhwb<>, ["hue", "whiteness", "blackness"], Some(0));
     fam!("Cam16UcsJab", Cam16UcsJab<>, ["lightness", "a", "b"], None);
     fam!("Cam16UcsJmh", Cam16UcsJmh<>, ["lightness", "colorfulness", "hue"], Some(2));
+    {
+        use palette::lms::{BradfordLms, VonKriesLms};
+        fam!("Lms<VonKries,D65>", VonKriesLms<D65>, ["long", "medium", "short"], None);
+        fam!("Lms<Bradford,D50>", BradfordLms<palette::white_point::D50>, ["long", "medium", "short"], None);
+        pre_family::<VonKriesLms<D65, f32>, f32>(&ctx, &mut m, &mut h, "Lms<VonKries,D65>", ["long", "medium", "short"]);
+    }
+    fam!("DciP3", RgbP<>, ["red", "green", "blue"], None);
+    fam!("Luv<D50>", Luv<palette::white_point::D50>, ["l", "u", "v"], None);
     // premultiplied forms
     pre_family::<RgbS<f32>, f32>(&ctx, &mut m, &mut h, "Srgb", ["red", "green", "blue"]);
     pre_family::<RgbS<f64>, f64>(&ctx, &mut m, &mut h, "Srgb", ["red", "green", "blue"]);
